@@ -1,6 +1,7 @@
 import Rangers.Model.TxAuth
 /-! Round-trip lemmas for the codecs on the way of a wrapped Ethereum transaction
-(`common.ToHex`/`FromHex`, big-endian integers, RLP of `eth_tx.txdata`). Core Lean only. -/
+(`common.ToHex`/`FromHex`, big-endian integers of `common.Sign`). Core Lean only.
+The RLP part rests on C08's theorems: see `Proofs/TxAuthRlp.lean`. -/
 namespace Rangers.Model.TxAuth
 open Rangers
 
@@ -197,249 +198,5 @@ theorem sign_bytes_roundtrip (b : Bytes) (sg : Sign) (h : bytesToSign b = some s
       rw [this, List.take_append_drop]
     rw [List.append_assoc, e, List.take_append_drop]
   · simp [hl] at h
-
-/-! ### RLP of the payload struct -/
-
-theorem u8_toNat (n : Nat) (h : n < 256) : (UInt8.ofNat n).toNat = n := by
-  rw [UInt8.toNat_ofNat']; omega
-
-theorem readKind_byte (b : UInt8) (rest : Bytes) (h : b.toNat < 128) :
-    readKind (b :: rest) = some (.byte b, rest) := by
-  simp [readKind, UInt8.lt_iff_toNat_lt, h]
-
-theorem readKind_strS (b : UInt8) (rest : Bytes) (h1 : 128 ≤ b.toNat) (h2 : b.toNat < 184) :
-    readKind (b :: rest) = some (.str (b.toNat - 128), rest) := by
-  have : ¬ b.toNat < 128 := by omega
-  simp [readKind, UInt8.lt_iff_toNat_lt, this, h2]
-
-theorem readKind_strL (b : UInt8) (rest r : Bytes) (sz : Nat) (h1 : 184 ≤ b.toNat) (h2 : b.toNat < 192)
-    (hrs : readSizeBE (b.toNat - 183) rest = some (sz, r)) (hsz : ¬ sz < 56) :
-    readKind (b :: rest) = some (.str sz, r) := by
-  have a1 : ¬ b.toNat < 128 := by omega
-  have a2 : ¬ b.toNat < 184 := by omega
-  simp [readKind, UInt8.lt_iff_toNat_lt, a1, a2, h2, hrs, hsz]
-
-theorem readKind_listS (b : UInt8) (rest : Bytes) (h1 : 192 ≤ b.toNat) (h2 : b.toNat < 248) :
-    readKind (b :: rest) = some (.list (b.toNat - 192), rest) := by
-  have a1 : ¬ b.toNat < 128 := by omega
-  have a2 : ¬ b.toNat < 184 := by omega
-  have a3 : ¬ b.toNat < 192 := by omega
-  simp [readKind, UInt8.lt_iff_toNat_lt, a1, a2, a3, h2]
-
-theorem readKind_listL (b : UInt8) (rest r : Bytes) (sz : Nat) (h1 : 248 ≤ b.toNat)
-    (hrs : readSizeBE (b.toNat - 247) rest = some (sz, r)) (hsz : ¬ sz < 56) :
-    readKind (b :: rest) = some (.list sz, r) := by
-  have a1 : ¬ b.toNat < 128 := by omega
-  have a2 : ¬ b.toNat < 184 := by omega
-  have a3 : ¬ b.toNat < 192 := by omega
-  have a4 : ¬ b.toNat < 248 := by omega
-  simp [readKind, UInt8.lt_iff_toNat_lt, a1, a2, a3, a4, hrs, hsz]
-
-theorem encTo_none : encTo none = [0x80] := rfl
-theorem encTo_some (a : Bytes) : encTo (some a) = encBytes a := rfl
-
-theorem encBytes_nil : encBytes [] = rlpHeader 0x80 0 := by simp [encBytes]
-theorem encBytes_one (b : UInt8) : encBytes [b] = if b < 128 then [b] else rlpHeader 0x80 1 ++ [b] := rfl
-theorem encBytes_two (b1 b2 : UInt8) (t : Bytes) :
-    encBytes (b1 :: b2 :: t) = rlpHeader 0x80 (b1 :: b2 :: t).length ++ (b1 :: b2 :: t) := rfl
-
-theorem readSizeBE_natToBE (len : Nat) (rest : Bytes) (h0 : len ≠ 0) :
-    readSizeBE (natToBE len).length (natToBE len ++ rest) = some (len, rest) := by
-  have hne := natToBE_ne_nil len h0
-  have hpos : (natToBE len).length ≠ 0 := by
-    intro h; exact hne (List.length_eq_zero_iff.1 h)
-  unfold readSizeBE
-  simp only [hpos, ↓reduceIte, List.length_append, List.take_left', List.drop_left']
-  have h1 : ¬ ((natToBE len).length + rest.length < (natToBE len).length) := by omega
-  simp only [h1, ↓reduceIte, natToBE_head_ne_zero, and_false, beToNat_natToBE]
-
-theorem readKind_header_str (len : Nat) (rest : Bytes) (hlen : len < 2 ^ 64) :
-    readKind (rlpHeader 0x80 len ++ rest) = some (.str len, rest) := by
-  unfold rlpHeader
-  by_cases h : len < 56
-  · simp only [h, ↓reduceIte, List.singleton_append]
-    have hb : (UInt8.ofNat (128 + len)).toNat = 128 + len := u8_toNat _ (by omega)
-    rw [readKind_strS _ _ (by omega) (by omega), hb]
-    simp
-  · have h0 : len ≠ 0 := by omega
-    have hl8 : (natToBE len).length ≤ 8 := natToBE_length_le 8 len (by simpa using hlen)
-    have hl1 : (natToBE len).length ≠ 0 := by
-      intro hh; exact natToBE_ne_nil len h0 (List.length_eq_zero_iff.1 hh)
-    simp only [h, ↓reduceIte, List.cons_append]
-    have hb : (UInt8.ofNat (128 + 55 + (natToBE len).length)).toNat = 128 + 55 + (natToBE len).length :=
-      u8_toNat _ (by omega)
-    have e : 128 + 55 + (natToBE len).length - 183 = (natToBE len).length := by omega
-    exact readKind_strL _ _ rest len (by omega) (by omega) (by rw [hb, e]; exact readSizeBE_natToBE len rest h0) h
-
-theorem readKind_header_list (len : Nat) (rest : Bytes) (hlen : len < 2 ^ 64) :
-    readKind (rlpHeader 0xC0 len ++ rest) = some (.list len, rest) := by
-  unfold rlpHeader
-  by_cases h : len < 56
-  · simp only [h, ↓reduceIte, List.singleton_append]
-    have hb : (UInt8.ofNat (192 + len)).toNat = 192 + len := u8_toNat _ (by omega)
-    rw [readKind_listS _ _ (by omega) (by omega), hb]
-    simp
-  · have h0 : len ≠ 0 := by omega
-    have hl8 : (natToBE len).length ≤ 8 := natToBE_length_le 8 len (by simpa using hlen)
-    have hl1 : (natToBE len).length ≠ 0 := by
-      intro hh; exact natToBE_ne_nil len h0 (List.length_eq_zero_iff.1 hh)
-    simp only [h, ↓reduceIte, List.cons_append]
-    have hb : (UInt8.ofNat (192 + 55 + (natToBE len).length)).toNat = 192 + 55 + (natToBE len).length :=
-      u8_toNat _ (by omega)
-    have e : 192 + 55 + (natToBE len).length - 247 = (natToBE len).length := by omega
-    exact readKind_listL _ _ rest len (by omega) (by rw [hb, e]; exact readSizeBE_natToBE len rest h0) h
-
-theorem decBytes_encBytes (bs rest : Bytes) (h : bs.length < 2 ^ 64) :
-    decBytes (encBytes bs ++ rest) = some (bs, rest) := by
-  match bs, h with
-  | [], _ =>
-    unfold decBytes
-    rw [encBytes_nil, readKind_header_str 0 _ (by omega)]
-    simp
-  | [b], _ =>
-    unfold decBytes
-    rw [encBytes_one]
-    by_cases hb : b < 128
-    · have hb' : b.toNat < 128 := by simpa using UInt8.lt_iff_toNat_lt.1 hb
-      simp only [hb, ↓reduceIte, List.singleton_append]
-      rw [readKind_byte _ _ hb']
-    · simp only [hb, ↓reduceIte, List.append_assoc]
-      rw [readKind_header_str 1 _ (by omega)]
-      simp [headLt128, hb]
-  | b1 :: b2 :: t, h =>
-    unfold decBytes
-    rw [encBytes_two]
-    simp only [List.append_assoc]
-    rw [readKind_header_str _ _ h]
-    have hl : ¬ ((b1 :: b2 :: t ++ rest).length < (b1 :: b2 :: t).length) := by simp
-    have h1 : ¬ ((b1 :: b2 :: t).length = 1) := by simp
-    simp only [hl, ↓reduceIte, h1, false_and, List.take_left', List.drop_left']
-
-theorem decBig_encNat (n : Nat) (rest : Bytes) (h : n < 2 ^ 256) :
-    decBig (encNat n ++ rest) = some (n, rest) := by
-  have hl : (natToBE n).length ≤ 32 := natToBE_length_le 32 n (by simpa using h)
-  unfold decBig encNat
-  rw [decBytes_encBytes _ _ (by omega)]
-  simp only [natToBE_head_ne_zero, ↓reduceIte, beToNat_natToBE]
-
-theorem decU64_encNat (n : Nat) (rest : Bytes) (h : n < 2 ^ 64) :
-    decU64 (encNat n ++ rest) = some (n, rest) := by
-  unfold decU64 encNat
-  by_cases h0 : n = 0
-  · subst h0
-    rw [natToBE_zero, encBytes_nil, readKind_header_str 0 _ (by omega)]
-    simp [beToNat]
-  · by_cases hs : n < 128
-    · rw [natToBE_small n h0 (by omega)]
-      have hb : (UInt8.ofNat n).toNat = n := u8_toNat _ (by omega)
-      have hlt : UInt8.ofNat n < 128 := by
-        apply UInt8.lt_iff_toNat_lt.2; rw [hb]; simpa using hs
-      rw [encBytes_one]
-      simp only [hlt, ↓reduceIte, List.singleton_append]
-      rw [readKind_byte _ _ (by rw [hb]; exact hs)]
-      have hne : UInt8.ofNat n ≠ 0 := by
-        intro he; have := congrArg UInt8.toNat he; rw [hb] at this; simp at this; exact h0 this
-      simp [hb, hne]
-    · have hl8 : (natToBE n).length ≤ 8 := natToBE_length_le 8 n (by simpa using h)
-      have hdec := decBytes_encBytes (natToBE n) rest (by omega)
-      -- unfold what decBytes saw to reuse the header lemma
-      cases hq : natToBE n with
-      | nil => exact absurd hq (natToBE_ne_nil n h0)
-      | cons b t =>
-        have hhead : (natToBE n).head? ≠ some 0 := natToBE_head_ne_zero n
-        have hval : beToNat (natToBE n) = n := beToNat_natToBE n
-        rw [hq] at hhead hval hl8
-        cases t with
-        | nil =>
-          -- single byte ≥ 128
-          have hbn : b.toNat = n := by simpa [beToNat] using hval
-          have hb : ¬ (b < 128) := by
-            intro hb; have := UInt8.lt_iff_toNat_lt.1 hb; simp at this; omega
-          rw [encBytes_one]
-          simp only [hb, ↓reduceIte, List.append_assoc]
-          rw [readKind_header_str 1 _ (by omega)]
-          have hb0 : ¬ (b = 0) := by intro he; rw [he] at hbn; simp at hbn; omega
-          simp [beToNat, hbn, hb0, hs]
-        | cons b2 t2 =>
-          rw [encBytes_two]
-          simp only [List.append_assoc]
-          rw [readKind_header_str _ _ (by have := hl8; simp only [List.length_cons] at this ⊢; omega)]
-          have hl : ¬ ((b :: b2 :: t2 ++ rest).length < (b :: b2 :: t2).length) := by simp
-          have h8 : ¬ ((b :: b2 :: t2).length > 8) := by omega
-          have hb0 : ¬ (b = 0) := by simpa using hhead
-          simp only [h8, hl, ↓reduceIte, List.take_left', List.drop_left', List.head?_cons,
-            Option.some.injEq, hb0, hval]
-          have : ¬ ((b :: b2 :: t2).length > 0 ∧ n < 128) := by omega
-          simp only [this, ↓reduceIte]
-
-theorem decOptAddr_encTo (to : Option Bytes) (rest : Bytes) (h : ∀ a, to = some a → a.length = 20) :
-    decOptAddr (encTo to ++ rest) = some (to, rest) := by
-  cases to with
-  | none =>
-    unfold decOptAddr
-    rw [encTo_none]
-    have := readKind_header_str 0 rest (by omega)
-    simp only [rlpHeader] at this
-    simp at this
-    simp [this]
-  | some a =>
-    have hl := h a rfl
-    unfold decOptAddr
-    rw [encTo_some]
-    match a, hl with
-    | b1 :: b2 :: t, hl =>
-      rw [encBytes_two]
-      simp only [List.append_assoc]
-      rw [readKind_header_str _ _ (by rw [hl]; omega)]
-      rw [hl]
-      have hl' : ¬ ((b1 :: b2 :: t ++ rest).length < 20) := by simp at hl ⊢; omega
-      simp only [ne_eq, not_true_eq_false, ↓reduceIte, hl']
-      have e1 : (b1 :: b2 :: t ++ rest).take 20 = b1 :: b2 :: t := by rw [← hl]; exact List.take_left' rfl
-      have e2 : (b1 :: b2 :: t ++ rest).drop 20 = rest := by rw [← hl]; exact List.drop_left' rfl
-      rw [e1, e2]
-
-/-- what a payload produced by an Ethereum wallet satisfies: 64-bit nonce and gas,
-    20-byte recipient (or none), 256-bit integers, sizes below 2^64 -/
-structure WfEthTx (e : EthTx) : Prop where
-  nonce : e.nonce < 2 ^ 64
-  gas : e.gas < 2 ^ 64
-  to : ∀ a, e.to = some a → a.length = 20
-  data : e.data.length < 2 ^ 64
-  price : e.price < 2 ^ 256
-  value : e.value < 2 ^ 256
-  v : e.v < 2 ^ 256
-  r : e.r < 2 ^ 256
-  s : e.s < 2 ^ 256
-  size : (coreFields e ++ encNat e.v ++ encNat e.r ++ encNat e.s).length < 2 ^ 64
-
-theorem decFields_payload (e : EthTx) (wf : WfEthTx e) :
-    decFields (coreFields e ++ encNat e.v ++ encNat e.r ++ encNat e.s) = some e := by
-  have hp : coreFields e ++ encNat e.v ++ encNat e.r ++ encNat e.s =
-      encNat e.nonce ++ (encNat e.price ++ (encNat e.gas ++ (encTo e.to ++ (encNat e.value ++
-        (encBytes e.data ++ (encNat e.v ++ (encNat e.r ++ (encNat e.s ++ [])))))))) := by
-    simp [coreFields]
-  rw [hp]
-  unfold decFields
-  rw [decU64_encNat _ _ wf.nonce]; dsimp only
-  rw [decBig_encNat _ _ wf.price]; dsimp only
-  rw [decU64_encNat _ _ wf.gas]; dsimp only
-  rw [decOptAddr_encTo _ _ wf.to]; dsimp only
-  rw [decBig_encNat _ _ wf.value]; dsimp only
-  rw [decBytes_encBytes _ _ wf.data]; dsimp only
-  rw [decBig_encNat _ _ wf.v]; dsimp only
-  rw [decBig_encNat _ _ wf.r]; dsimp only
-  rw [decBig_encNat _ _ wf.s]; dsimp only
-  simp
-
-/-- `rlp.DecodeBytes(rlp.EncodeToBytes(tx))` gives `tx` back. -/
-theorem decodeTx_encodeTx (e : EthTx) (wf : WfEthTx e) : decodeTx (encodeTx e) = some e := by
-  unfold decodeTx encodeTx encList
-  rw [readKind_header_list _ _ wf.size]
-  simp only [↓reduceIte]
-  exact decFields_payload e wf
-
-theorem encodeTx_ne_nil (e : EthTx) : encodeTx e ≠ [] := by
-  unfold encodeTx encList rlpHeader
-  split <;> simp
 
 end Rangers.Model.TxAuth
